@@ -354,6 +354,7 @@ func rulePDF417Latches(c *Ctx) {
 		"TXT": fmt.Sprint(cv["encText"]),
 		"ONE": "(B == 1)",
 	}
+	assume := assumeNoErrors(n, fn) // (names the error results before any condition is taken)
 	emitted := map[int64]*Cond{}
 	for _, s := range appendSites(fn) {
 		if len(s.elems) != 1 || enclosingLoopHeader(s.call.Block()) != hdr {
@@ -366,7 +367,6 @@ func rulePDF417Latches(c *Ctx) {
 			emitted[k] = cOr(emitted[k], n.ReachCond(fn, body, s.call.Block()))
 		}
 	}
-	assume := assumeNoErrors(n, fn)
 	chk := func(key string, got *Cond, want string) {
 		if got == nil {
 			got = cFalse
@@ -396,13 +396,8 @@ func rulePDF417Latches(c *Ctx) {
 		c.Check(R, "pdf417.highlevelEncode/byte-segment", sl.Pos(), n.Norm(sl.X).String() == "data", "bytes = data[:B]", n.Norm(sl.X).String())
 		// B is the binary count, at least 1
 		cases := n.valueCasesUnbound(fn, sl.High)
-		var got []string
-		for _, cs := range cases {
-			got = append(got, cs.val.String()+" when "+cs.cond.String())
-		}
-		sort.Strings(got)
-		wantB := []string{"1 when " + MustRefCond("bc == 0").String(), "bc when " + MustRefCond("bc != 0").String()}
-		c.Check(R, "pdf417.highlevelEncode/byte-count", sl.Pos(), fmt.Sprint(got) == fmt.Sprint(wantB), fmt.Sprint(wantB), fmt.Sprint(got))
+		// (a count is never negative: compared on bc >= 0, so `bc == 0`, `bc < 1` and max(bc, 1) read the same)
+		checkCasesUnder(c, R, "pdf417.highlevelEncode/byte-count", sl.Pos(), cases, []edgeSpec{{"1", "bc == 0"}, {"bc", "bc != 0"}}, MustRefCond("bc >= 0"))
 	} else {
 		c.Undecided(R, "pdf417.highlevelEncode/byte-segment", ebCall.Pos(), "byte segment is not data[:count]")
 		return
